@@ -9,6 +9,9 @@ import (
 	"io"
 	"log"
 	"os"
+	"sync/atomic"
+	"syscall"
+	"time"
 
 	"verif/props"
 )
@@ -33,6 +36,7 @@ func main() {
 		b, _ := json.Marshal(map[string]interface{}{
 			"id": p.ID, "count": p.Count(ctx), "chunk": p.Chunk, "needs_cli": p.NeedsCLI, "race": p.Race,
 			"rule": p.Rule, "assumptions": p.Assumptions, "min_nontrivial_frac": p.MinNontrivialFrac,
+			"exhaustive": p.Exhaustive,
 		})
 		fmt.Println(string(b))
 		return
@@ -58,7 +62,21 @@ func main() {
 		*to = n
 	}
 	out := os.Stdout
+	var caseStart atomic.Value // float64 CPU seconds at the start of the running case
+	caseStart.Store(cpuSeconds())
+	if p.CPULimit > 0 {
+		go func() {
+			for {
+				time.Sleep(200 * time.Millisecond)
+				if cpuSeconds()-caseStart.Load().(float64) > p.CPULimit {
+					fmt.Fprintf(os.Stderr, "verif: cpu bound exceeded: one case burnt more than %.0f CPU seconds\n", p.CPULimit)
+					os.Exit(97)
+				}
+			}
+		}()
+	}
 	for i := *from; i < *to; i++ {
+		caseStart.Store(cpuSeconds())
 		fmt.Fprintf(out, "BEGIN %d\n", i)
 		o := props.RunCase(p, ctx, i)
 		b, err := json.Marshal(o)
@@ -68,4 +86,12 @@ func main() {
 		fmt.Fprintf(out, "END %d %s\n", i, b)
 	}
 	fmt.Fprintln(out, "DONE")
+}
+
+func cpuSeconds() float64 {
+	var ru syscall.Rusage
+	if err := syscall.Getrusage(syscall.RUSAGE_SELF, &ru); err != nil {
+		return 0
+	}
+	return float64(ru.Utime.Sec+ru.Stime.Sec) + float64(ru.Utime.Usec+ru.Stime.Usec)/1e6
 }
